@@ -415,3 +415,34 @@ def io_window_rule(ctx, rule):
                           "e.g. on graceful shutdown the last acknowledged entry is missing from the log after restart"
                           % ("guarded by `start %s end`" % bad_guard if bad_guard else "not reading durable_index+1 ..= max_index"), loc(b, bi))
     ctx.floor(rule, n, 3, "window persists in the IO task (notify arm, shutdown arm, safety timer)")
+
+
+U64MAX_S = "18446744073709551615"
+
+
+def tail_truncations_without_next_id(F, depth=6):
+    """tail truncations of the in-memory log (remove_range(x..=u64::MAX)) that are not followed by a lowering
+    write of the index allocator `next_id` -> [(fn, body, block, witness)] ; also returns the number of tail sites"""
+    def lowers_next_id(body):
+        return field_receiver_calls(F, body, "BufferedRaftLog", "next_id", r"atomic::Atomic\w*::(store|fetch_min|swap|compare_exchange|fetch_update|fetch_sub)$")
+    fns = [b for b in F.bodies.values() if b.parent is None and self_type_of(F, b.id).endswith("buffered_raft_log::BufferedRaftLog")]
+    rr = F.try_method("BufferedRaftLog", "remove_range")
+    callee_lowers = bool(rr and any(lowers_next_id(b) for b in F.group_bodies(rr)))
+    bad, n = [], 0
+    for fn in fns:
+        for b in F.group_bodies(fn):
+            for (bi, t) in calls_matching(b, r"BufferedRaftLog::remove_range$"):
+                s = Slice(F, b, through_calls=True).operand(t["args"][1])
+                if U64MAX_S not in s.consts():
+                    continue
+                n += 1
+                after = [x for (x, _t) in lowers_next_id(b) if x != bi]
+                wit = None if callee_lowers else must_pass(b, bi, [], after, treat_exit_as_goal=True)
+                if wit is not None and any(b.term(x)["k"] == "call" and "from_residual" in (callee_key(b.term(x)) or "") for x in wit) and after:
+                    # only error exits skip the store
+                    seen, _p = b.reach_from(bi, avoid_blocks=frozenset(after))
+                    if all(b.term(x)["k"] != "return" or True for x in seen):
+                        pass
+                if wit is not None:
+                    bad.append((fn, b, bi, wit))
+    return bad, n
